@@ -36,3 +36,28 @@ pub open spec fn opts_frame(a: JoinInputDefault, b: JoinInputDefault, fp: bool, 
     &&& (lz || b.lazy_branches == a.lazy_branches)
     &&& b.branches == a.branches && b.handler == a.handler
 }
+
+// ---- call-out twins for the WHOLE-function proof of `parse`: the verified contracts of `parse_option_<kw>` MINUS their peek
+// clauses (weaker, hence sound to assume; the peek clauses are only meaningful within one block, A13)
+impl JoinInputDefault {
+    #[verifier::external_body]
+    fn parse_option_futures_crate_path_w(input: ParseStream<'_>, join: JoinInputDefault) -> (r: syn::Result<JoinInputDefault>)
+        ensures r is Ok ==> opts_frame(join, r->Ok_0, true, false, false, false), { unimplemented!() }
+    #[verifier::external_body]
+    fn parse_option_custom_joiner_w(input: ParseStream<'_>, join: JoinInputDefault) -> (r: syn::Result<JoinInputDefault>)
+        ensures r is Ok ==> opts_frame(join, r->Ok_0, false, true, false, false), { unimplemented!() }
+    #[verifier::external_body]
+    fn parse_option_transpose_results_w(input: ParseStream<'_>, join: JoinInputDefault) -> (r: syn::Result<JoinInputDefault>)
+        ensures r is Ok ==> opts_frame(join, r->Ok_0, false, false, true, false), { unimplemented!() }
+    #[verifier::external_body]
+    fn parse_option_lazy_branches_w(input: ParseStream<'_>, join: JoinInputDefault) -> (r: syn::Result<JoinInputDefault>)
+        ensures r is Ok ==> opts_frame(join, r->Ok_0, false, false, false, true), { unimplemented!() }
+}
+
+/// the three determiner constants of join/parse.rs (their rows are the R9 table `determiners`; opaque values here)
+#[verifier::external_body]
+pub fn default_group_determiners() -> (r: &'static [GroupDeterminer]) { unimplemented!() }
+#[verifier::external_body]
+pub fn deferred_determiner() -> (r: &'static GroupDeterminer) { unimplemented!() }
+#[verifier::external_body]
+pub fn wrapper_determiner() -> (r: &'static GroupDeterminer) { unimplemented!() }
